@@ -144,6 +144,9 @@ func slDrivers(tier string) []slDriver {
 		{init: k123, threads: [][]slOp{{{'D', 2, 0}}, {{'D', 3, 0}, {'I', 3, 0}}}},
 		{init: k123, threads: [][]slOp{{{'D', 1, 0}, {'L', 1, 0}}, {{'D', 2, 0}, {'L', 2, 0}}}},
 		{init: k123, threads: [][]slOp{{{'N', 2, 0}}, {{'N', 3, 0}}, {{'L', 3, 0}}}},
+		// three level draws racing for the list level (a delayed writer must not lower it)
+		{init: nil, threads: [][]slOp{{{'I', 1, 1}}, {{'I', 2, 1}, {'I', 3, 2}}}},
+		{init: nil, threads: [][]slOp{{{'I', 1, 1}}, {{'I', 2, 1}}, {{'I', 3, 2}}}},
 		// an insert whose upper-level link has to be redone (a tower lands in front and one behind) while it is deleted
 		{init: nil, threads: [][]slOp{{{'I', 2, 1}}, {{'I', 1, 1}, {'I', 3, 1}}, {{'D', 2, 0}}}},
 		{init: k13, threads: [][]slOp{{{'I', 2, 1}}, {{'D', 2, 0}}, {{'D', 3, 0}, {'I', 3, 1}}}},
